@@ -170,6 +170,17 @@ def run(ctx):
             c.x_data[0] = 9
         check_value(ctx, "XYData", x, lambda c: (c.x_data.tolist(), c.y_data.tolist(), str(c.dtype), c.x_units, c.y_units,
                                                 list(c.extended_properties.items())), xmut)
+    # ---- after any call — accepted or rejected — on a borrowed / read-only buffer the object must still pickle and deep-copy to
+    # an equal value (hidden state that a rejected call left behind shows up here)
+    def bjudge(info, w, before, o, after):
+        for how in ("default", "deepcopy"):
+            r = outcome(dup, w, how)
+            if r[0] != "ok" or not (r[1] == w) or H.observe(r[1]).get("count") != after.get("count"):
+                ctx.violation(what="a waveform cannot be pickled / deep-copied to an equal value after a call", how=how,
+                              call_outcome=show(o)[:100], observed=show(r)[:200], required="an equal copy", **info)
+                return False
+        return True
+    ctx.extra["borrowed_buffer_calls"] = H.borrowed_cases(ctx, bjudge, quick_subset=True)
     # ---- waveforms through histories (slack, borrowed buffers, names cache) -----------------------------------------------
     world = H.World(rng)
     w = {"appa": 3, "appw": 2, "load": 3, "setcount": 2, "setcap": 2, "settiming": 2, "write": 1, "get": 0, "pickle": 4, "bad": 0}
